@@ -1732,7 +1732,12 @@ def _transit_step(m1, p1, mv1, n, keep, k, head):
     tr2 = transit_rates(m2, p2, mv2)
     tr1 = transit_rates(m1, p1, mv1)
     if len(tr2) != n:
-        raise Violation('transit:count', observed=[c for c, _ in tr2], expected=n, detail=detail)
+        tag0 = ''
+        if len(tr1) == 1 and not m1.statements.ode_system.find_transit_compartments(m1.statements):
+            # the model before the step has one transit compartment and no depot: pharmpy does not classify it
+            # as a transit compartment at all (same root cause as the reduced-to-one finding), so it is not removed
+            tag0 = '[lone-transit-without-depot-not-recognised]'
+        raise Violation(f'transit{tag0}:count', observed=[c for c, _ in tr2], expected=n, detail=detail)
     classes += [f'n={n}', f'from={len(tr1)}', f'keep_depot={keep}']
     ttag = ''
     if n == 1 and len(tr1) > 1 and not m2.statements.ode_system.find_transit_compartments(m2.statements):
